@@ -25,10 +25,27 @@ pub struct NumericParts {
 impl From<Numeric> for NumericParts {
     fn from(value: Numeric) -> NumericParts {
         let (exact, approx) = value.string_repr(10, Digits::Default);
-        let (num, den) = value.to_rational();
+        let (numer, denom) = match value {
+            // NaN and the infinities have no rational form; encode them
+            // as 0/0 and +-1/0 instead of panicking.
+            Numeric::Float(f) if !f.is_finite() => {
+                let numer = if f.is_nan() {
+                    "0"
+                } else if f > 0.0 {
+                    "1"
+                } else {
+                    "-1"
+                };
+                (numer.to_owned(), "0".to_owned())
+            }
+            _ => {
+                let (num, den) = value.to_rational();
+                (num.to_string(), den.to_string())
+            }
+        };
         NumericParts {
-            numer: num.to_string(),
-            denom: den.to_string(),
+            numer,
+            denom,
             exact_value: exact,
             approx_value: approx,
         }
